@@ -187,6 +187,26 @@ def h_climb(nimg, dim):
     return fn
 
 
+def h_path_defaults():
+    """a string built with the documented defaults (no gradientkwargs) can be constructed, stepped and relaxed"""
+    def fn():
+        from atomman.mep import ISMPath
+        efxn = lambda x: np.sum(np.asarray(x) ** 2, axis=-1) if np.ndim(x) > 1 else float(np.sum(np.asarray(x) ** 2))
+        coord = np.array([[-1.0, 0.2], [-0.5, 0.4], [0.0, 0.5], [0.5, 0.4], [1.0, 0.2]])
+        ob = []
+        try:
+            p = ISMPath(coord, efxn)
+        except Exception as e:
+            if '/repo/' not in (e.__traceback__.tb_next.tb_frame.f_code.co_filename if e.__traceback__ and e.__traceback__.tb_next else ''): raise
+            return [(f'ISMPath(coord, energyfxn) with default gradient settings can be constructed ({type(e).__name__}: {e})', False)]
+        ob.append(('ISMPath(coord, energyfxn) with default gradient settings can be constructed', True))
+        ob.append(('default gradientkwargs is an empty dict', p.gradientkwargs == {}))
+        q = p.step(timestep=0.01)
+        ob.append(('one default step moves every image down the gradient of a bowl (energies do not increase)', bool(np.all(np.asarray(q.energy()) <= np.asarray(p.energy()) + 1e-12))))
+        return ob
+    return fn
+
+
 def h_relax_control(nrelax, nclimb):
     """ISMPath.relax loop control with step() cut: each phase runs until its own max-displacement-per-
     timestep drops below the tolerance or its step budget is used up (relaxation converging must not
@@ -253,4 +273,5 @@ def cases(tier, seed=0):
                        descr=f'ISMPath.relax loop control, step() cut, symbolic displacement history ({nr} relax, {nc} climb steps)'))
     if tier == 'thorough':
         cs.append(Case('climb_4x3', h_climb(4, 3), bind=BIND, budget_s=300, descr='ISMPath.step rate/climbrate closures, 4 images x 3 dims'))
+    cs.append(Case('path_defaults', h_path_defaults(), concrete_only=True, budget_s=60, descr='a path built with the documented default arguments (concrete; no symbolic input)'))
     return cs
